@@ -16,7 +16,7 @@ replace_exported_func(fid, ..):
   * nothing is deleted and the original function is not modified; returns Ok(new)."""
 import re
 from registry import RuleResult
-from heval import Evaluator, Policy, EvalError, sym, show, cfield, strip_after
+from heval import Evaluator, Policy, EvalError, sym, show, cfield, strip_after, local_policy
 
 RI = 'module::functions::<impl module::Module>::replace_imported_func'
 RE = 'module::functions::<impl module::Module>::replace_exported_func'
@@ -36,8 +36,7 @@ def run(ctx):
     F = ctx.F
     res = RuleResult('R-EFFECTS', 'function replacement rewires exactly one thing')
     res.floor = 9
-    pol = Policy(effects=lambda p: not p.startswith('std::') and not p.startswith('log::') and not p.startswith('anyhow::'),
-                 inline=lambda p: False)
+    pol = local_policy(F, RI, public_events=True)
     ev = Evaluator(F, pol)
     for path in (RI, RE):
         if path not in F.hir:
